@@ -10,7 +10,9 @@
  *   - page text: vbi_fetch_vt_page() of the same page on a mirror decoder, rows
  *     1..23, enlarged characters counted once at their upper left cell;
  *   - matcher: naive substring / small backtracking matcher for the subset
- *     { literal, '.', 'x*', [set], a|b, \x }, case folding by ASCII tolower;
+ *     { literal, '.', 'x*', 'x+', 'x?', [set], [a-z], a|b, \x, \pN1,..,Nn, \PN1,..,Nn, [:name:], [^:name:] },
+ *     case folding by ASCII tolower; the character properties are written out for ASCII and the Teletext
+ *     graphics ranges from the table in the documentation of vbi_search_new() (see cls_has(), init_class_pats());
  *   - pass model: one pass returns every matching (pgno,subno) exactly once in
  *     cyclic ascending (descending) order from the start position, consecutive
  *     returns of one page collapse (but a page is never returned more often in
@@ -49,6 +51,13 @@
  *   - Quick tier bounds are subsets of the DESIGN bounds (see the "bound" meta
  *     line); the thorough tier runs the full 3^7 product with every switch point.
  *
+ *   - Seed C17 round 5 (two different property-only character classes in one regular expression were compiled
+ *     into one symbol, '\p4\p2' searched for '\p4\p4'): the pattern alphabet had no regular expression with two
+ *     different range-less classes.  The phase "property classes" enumerates a family of such expressions (pairs,
+ *     triples, one class twice as the control, negated classes, union lists, operators, both notations) against
+ *     texts which tell the classes apart ('7B' / '42' / 'AB' ...), see init_class_pats().  Their violation keys
+ *     name the family of the pattern, the details the pattern itself.
+ *
  * Violation keys name the symptom and the input class (never the concrete
  * population): "<direction>: call never ends [<where the start lies>]",
  * "<direction>: ... never visits <which page>", "... returned twice ...",
@@ -60,6 +69,7 @@
 #include <stdlib.h>
 #include <string.h>
 #include <unistd.h>
+#include <stdarg.h>
 #include "mc.h"
 #include "src/search.c"
 #include "src/cache-priv.h"
@@ -88,7 +98,22 @@ static const int start_subno[3] = { 0, VBI_ANY_SUBNO, 2 };
 enum {
         T_ABSENT, T_NONE, T_ONCE, T_TWOROWS, T_SAMEROW, T_DW, T_DS, T_DH, T_ROW0, T_ROW24, T_ROW1,
         T_ROW23END, T_PREFIX, T_PREFIX2, T_SPACED, T_DOUBLED, T_LOWER, T_MIXED, T_TOP, T_XAP, T_ZP,
-        T_ZAAAP, T_ZAXP, T_BLANK, T_META0 /* + index into metas[] */
+        T_ZAAAP, T_ZAXP, T_BLANK,
+        T_CLS0,                         /* + index into cls_txt[]: texts that tell character property classes apart */
+        T_META0 = T_CLS0 + 24           /* + index into metas[] */
+};
+#define NCLS (T_META0 - T_CLS0)
+/* texts of the phase "property classes" (seed C17 round 5): the 12 even permutations of the four characters
+ * B (upper case, also a hex digit), k (lower case), 7 (digit), - (punctuation): every ordered pair of two different
+ * kinds is adjacent on exactly 3 of them, every ordered triple on exactly 1; then one kind twice, the texts which tell
+ * two negated classes in a row apart, a page with many occurrences and two pages with Teletext block mosaics.
+ * They are stored at row 5 column 3 of an otherwise blank page (no 'HELLO WORLD'), i.e. never next to a row boundary. */
+static char cls_txt[NCLS][24] = {
+        "", "", "", "", "", "", "", "", "", "", "", "",         /* init_pats(): the permutations */
+        "7B", "42", "AB", "kq", "-+", "AB17", "ABC7", "A1 B2 C3 - 5 - 66", "X9y",
+        "\x17" "Z5P" "\x07",            /* mosaics on: blast-through Z, mosaic U+EE35, blast-through P, mosaics off */
+        "\x17" "5j" "\x07",             /* two mosaics */
+        "ROOM 7b, GATE 3C.",
 };
 static const char metas[] = "!\"#$%&()*+,-./:;=?@[\\]^_{|}~";
 #define NMETA ((int) sizeof metas - 1)
@@ -101,6 +126,12 @@ static const char *text_name(int t)
                 "ZAP at row 23 col 37", "ZZAP", "ZAZAP", "Z A P", "ZZAAPP", "zap", "zAp", "TOP", "XAP", "ZP", "ZAAAP",
                 "ZAXP", "blank" };
         static char b[NMETA][8];
+        if (t >= T_CLS0 && t < T_META0) {
+                static char cb[NCLS][40]; char *o = cb[t - T_CLS0]; size_t n = 0; *o = 0;
+                for (const char *q = cls_txt[t - T_CLS0]; *q && n + 8 < sizeof cb[0]; q++)
+                        n += (unsigned char) *q < 0x20 ? snprintf(o + n, 8, "<%02x>", *q) : snprintf(o + n, 8, "%c", *q);
+                return cb[t - T_CLS0];
+        }
         if (t < T_META0) return n[t];
         snprintf(b[t - T_META0], 8, "Z%cP", metas[t - T_META0]);
         return b[t - T_META0];
@@ -140,15 +171,17 @@ static void build_text(int t, uint8_t raw[26][40])
         case T_ZAXP:      tx(raw, 5, 3, "ZAXP"); break;
         case T_BLANK:     break;
         default:
+                if (t >= T_CLS0 && t < T_META0) { tx(raw, 2, 4, "           "); tx(raw, 5, 3, cls_txt[t - T_CLS0]); }
                 if (t >= T_META0 && t < NTEXT) { char b[4] = { 'Z', metas[t - T_META0], 'P', 0 }; tx(raw, 5, 3, b); }
                 break;
         }
 }
 
 /* patterns */
-typedef struct { const char *name, *src; int regexp, casefold; } pat_t;
+typedef struct { const char *name, *src; int regexp, casefold; const char *fam; } pat_t;
 #define P_ZAP 0
-static pat_t pats[64] = {
+#define MAXPAT 320
+static pat_t pats[MAXPAT] = {
         { "literal ZAP", "ZAP", 0, 0 },
         { "literal zap casefold", "zap", 0, 1 },
         { "literal zAP casefold", "zAP", 0, 1 },
@@ -163,6 +196,117 @@ static pat_t pats[64] = {
 };
 #define NPAT_FIXED 11
 static int npats = NPAT_FIXED;
+static int npats_zap;           /* pats[0..npats_zap): the patterns about 'ZAP'; pats[npats_zap..npats): the property class family */
+
+/* ---- regular expressions made of character property classes (seed C17 round 5) ----------------------------------
+ * Syntax as src/ure.c parses it and vbi_search_new() documents it:
+ *   \pN1,..,Nn   one character which has at least one of the listed properties (table of vbi_search_new():
+ *                1 alphanumeric, 2 alpha, 4 digit, 5 graphical, 6 lowercase, 7 printable, 8 punctuation, 9 space,
+ *                10 uppercase, 11 hex digit, 16 Teletext G1 or G3 graphics, 17 Teletext DRCS)
+ *   \PN1,..,Nn   one character which has none of them
+ *   [ ... ]      a class of literals, ranges a-z, \p lists and the POSIX colon delimited names :alpha: :digit: ...,
+ *                :gfx: and :drcs: (the extensions the table of vbi_search_new() lists)
+ *                (ure.c probes for them *inside* the brackets: "[:alpha:]" is the class of letters, "[:alpha::digit:]"
+ *                the union, "[^:digit:]" its negation)
+ * The family is enumerated, not sampled: every ordered pair over 5 classes in both notations (one class twice is the
+ * control), mixed notations, ordered triples, negated classes before / after / between positive ones and two negated
+ * classes in a row, union lists, the wider classes, the operators * + ? | over disjoint classes, case folding with
+ * classes which case folding cannot change, graphics, and a class next to a literal or a range.
+ * Left out because nothing can be stated about them from the documentation: properties 12-15 (title, defined, wide,
+ * nonspacing), upper/lower under case folding, a negated class at a row boundary (is the row separator a character?),
+ * overlapping classes under * + ? |, and every pattern without a positive class (it would occur ~900 times a page).
+ * Four classes of input have a family / violation key of their own, because the unchanged tree fails on them (reported,
+ * not hidden; the keys must stay apart from the keys of the other families):
+ *   "[:graph:]" and "[:gfx:]" are not recognised as class names (cclass_trie[] of ure.c: the alternatives f / r after
+ *   ':g' are counted 1, 2 instead of 2, 1; the closing colon is accepted at the 7th or 8th character only),
+ *   "[:drcs:]x" makes _ure_posix_ccl() read past the end of cclass_trie[] (ASan: global-buffer-overflow),
+ *   '.', \PN and [^ ] do not match a Teletext graphics character (_ure_issep() passes its arguments to
+ *   _ure_matches_properties() in the wrong order, every code with bit 14 set "is a separator"). */
+static const struct { int n; const char *name; } K5[5] = { { 2, "alpha" }, { 4, "digit" }, { 8, "punct" }, { 10, "upper" }, { 6, "lower" } };
+#define K3 3                    /* the first three: alpha, digit, punct */
+static char cls_names[MAXPAT][64], cls_src[MAXPAT][56];
+
+static void add_cls(const char *fam, int casefold, const char *fmt, ...)
+{
+        va_list ap;
+        if (npats >= MAXPAT) { fprintf(stderr, "C17: pats[] too small\n"); _exit(42); }
+        va_start(ap, fmt); vsnprintf(cls_src[npats], sizeof cls_src[0], fmt, ap); va_end(ap);
+        snprintf(cls_names[npats], sizeof cls_names[0], "regex %s%s", cls_src[npats], casefold ? " casefold" : "");
+        pats[npats] = (pat_t){ cls_names[npats], cls_src[npats], 1, casefold, fam };
+        npats++;
+}
+/* class k of K5 in notation f (0: \pN, 1: [:name:]), negated or not */
+static const char *cl(int k, int f, int neg)
+{
+        static char b[8][16]; static int w;
+        char *o = b[w++ & 7];
+        if (f) snprintf(o, 16, "[%s:%s:]", neg ? "^" : "", K5[k].name); else snprintf(o, 16, "\\%c%d", neg ? 'P' : 'p', K5[k].n);
+        return o;
+}
+static void init_class_pats(void)
+{
+        static const char *F1 = "property classes: one class twice", *F2 = "property classes: 2 different classes",
+                *F3 = "property classes: 3 classes", *FN = "property classes: negated classes", *FU = "property classes: union lists and wider classes",
+                *FO = "property classes: with * + ? |", *FC = "property classes: casefold", *FG = "property classes: Teletext graphics",
+                *FL = "property classes: next to a literal or a range", *FGR = "property classes: [:graph:]",
+                *FGX = "property classes: [:gfx:]", *FDR = "property classes: [:drcs:]";
+        /* the texts: even permutations of "Bk7-" in lexicographic order */
+        static const char sym[5] = "7-Bk";
+        int nperm = 0;
+        for (int a = 0; a < 4; a++) for (int b = 0; b < 4; b++) for (int c = 0; c < 4; c++) for (int d = 0; d < 4; d++) {
+                int q[4] = { a, b, c, d }, inv = 0, bad = 0;
+                for (int i = 0; i < 4; i++) for (int j = i + 1; j < 4; j++) { if (q[i] == q[j]) bad = 1; if (q[i] > q[j]) inv++; }
+                if (bad || (inv & 1)) continue;
+                for (int i = 0; i < 4; i++) cls_txt[nperm][i] = sym[q[i]];
+                cls_txt[nperm++][4] = 0;
+        }
+        if (nperm != 12) _exit(42);
+        /* pairs */
+        for (int f = 0; f < 2; f++) for (int i = 0; i < 5; i++) for (int j = 0; j < 5; j++)
+                add_cls(i == j ? F1 : F2, 0, "%s%s", cl(i, f, 0), cl(j, f, 0));
+        for (int f = 0; f < 2; f++) for (int i = 0; i < K3; i++) for (int j = 0; j < K3; j++)
+                if (i != j) add_cls(F2, 0, "%s%s", cl(i, f, 0), cl(j, !f, 0));
+        /* triples: all different over {digit, punct, upper, lower}; over {alpha, digit, punct} in the other notation; ABA, AAB, ABB */
+        for (int i = 1; i < 5; i++) for (int j = 1; j < 5; j++) for (int k = 1; k < 5; k++)
+                if (i != j && j != k && i != k) add_cls(F3, 0, "%s%s%s", cl(i, 0, 0), cl(j, 0, 0), cl(k, 0, 0));
+        for (int i = 0; i < K3; i++) for (int j = 0; j < K3; j++) for (int k = 0; k < K3; k++)
+                if (i != j && j != k && i != k) add_cls(F3, 0, "%s%s%s", cl(i, 1, 0), cl(j, 1, 0), cl(k, 1, 0));
+        for (int i = 0; i < K3; i++) for (int j = 0; j < K3; j++) if (i != j) {
+                add_cls(F3, 0, "%s%s%s", cl(i, 0, 0), cl(j, 0, 0), cl(i, 0, 0));
+                add_cls(F3, 0, "%s%s%s", cl(i, 0, 0), cl(i, 0, 0), cl(j, 0, 0));
+                add_cls(F3, 0, "%s%s%s", cl(i, 0, 0), cl(j, 0, 0), cl(j, 0, 0));
+        }
+        /* negated classes: after, before, between positive ones; two in a row between alphanumerics (same one twice = control) */
+        for (int i = 0; i < K3; i++) for (int j = 0; j < K3; j++) {
+                add_cls(FN, 0, "%s%s", cl(i, 0, 0), cl(j, 0, 1));
+                add_cls(FN, 0, "%s%s", cl(i, 0, 1), cl(j, 0, 0));
+                add_cls(FN, 0, "%s%s%s", cl(i, 1, 0), cl(j, 1, 1), cl(i, 1, 0));
+                add_cls(FN, 0, "\\p1%s%s\\p1", cl(i, 0, 1), cl(j, 0, 1));
+                if (i != j) add_cls(FN, 0, "[:alnum:]%s%s[:alnum:]", cl(i, 1, 1), cl(j, 1, 1));
+        }
+        /* union lists, wider classes */
+        add_cls(FU, 0, "\\p2,4\\p8"); add_cls(FU, 0, "\\p8\\p2,4"); add_cls(FU, 0, "\\p2,4\\p2"); add_cls(FU, 0, "\\p2\\p2,4");
+        add_cls(FU, 0, "\\p2,4\\p4,8"); add_cls(FU, 0, "\\p4,8\\p2,4"); add_cls(FU, 0, "\\p10,6\\p4");
+        add_cls(FU, 0, "[:alpha::digit:][:punct:]"); add_cls(FU, 0, "[:punct:][:alpha::digit:]"); add_cls(FU, 0, "[\\p2,4][\\p8]");
+        add_cls(FU, 0, "\\p1\\p8"); add_cls(FU, 0, "\\p8\\p1"); add_cls(FU, 0, "\\p11\\p6"); add_cls(FU, 0, "\\p6\\p11");
+        add_cls(FU, 0, "\\p5\\p9"); add_cls(FU, 0, "\\p7\\p8"); add_cls(FU, 0, "[:xdigit:][:lower:]"); add_cls(FU, 0, "[:alnum:][:space:]");
+        add_cls(FGR, 0, "[:graph:][:space:]"); add_cls(FGR, 0, "[:space:][:graph:]");
+        /* operators, the classes on both sides of each are disjoint */
+        add_cls(FO, 0, "\\p10+\\p4"); add_cls(FO, 0, "\\p4+\\p6"); add_cls(FO, 0, "\\p4\\p6*\\p8"); add_cls(FO, 0, "\\p10\\p6?\\p4");
+        add_cls(FO, 0, "\\p2\\p8|\\p4\\p4"); add_cls(FO, 0, "[:upper:]+[:digit:]"); add_cls(FO, 0, "[:digit:][:lower:]*[:punct:]");
+        /* case folding cannot change these classes */
+        add_cls(FC, 1, "\\p4\\p2"); add_cls(FC, 1, "\\p2\\p4"); add_cls(FC, 1, "[:alpha:][:punct:]"); add_cls(FC, 1, "[:punct:][:digit:]");
+        /* Teletext block mosaics */
+        add_cls(FG, 0, "\\p16\\p10"); add_cls(FG, 0, "\\p10\\p16"); add_cls(FG, 0, "\\p16\\p16"); add_cls(FG, 0, "\\p9\\p16"); add_cls(FG, 0, "\\p16,4\\p2");
+        add_cls(FG, 0, "\\p10.\\p10"); add_cls(FG, 0, "\\p10\\P4\\p10"); add_cls(FG, 0, "\\p10[^:digit:]\\p10");
+        /* the class names vbi_search_new() documents as extensions */
+        add_cls(FGX, 0, "[:gfx:][:upper:]"); add_cls(FGX, 0, "[:upper:][:gfx:]"); add_cls(FDR, 0, "[:drcs:][:upper:]");
+        /* a class next to a literal or a range */
+        add_cls(FL, 0, "\\p4k"); add_cls(FL, 0, "B\\p6"); add_cls(FL, 0, "[0-9]\\p2"); add_cls(FL, 0, "\\p4[A-Z]"); add_cls(FL, 0, "[7\\p6]\\p8");
+        add_cls(FL, 0, "[0-9]\\p2\\p8"); add_cls(FL, 0, "\\p2[0-9]\\p2"); add_cls(FL, 0, ".\\p4\\p2");
+}
+static const char *pkey(const pat_t *pt) { return pt->fam ? pt->fam : pt->name; }     /* violation keys name the family, the details the pattern */
+
 static char meta_names[NMETA][24], meta_src[NMETA][4];
 static void init_pats(void)
 {
@@ -172,24 +316,90 @@ static void init_pats(void)
                 pats[npats].name = meta_names[i]; pats[npats].src = meta_src[i]; pats[npats].regexp = 0; pats[npats].casefold = 0;
                 npats++;
         }
+        npats_zap = npats;
+        init_class_pats();
 }
 
 /* ---- independent matcher ---------------------------------------------------- */
 
 static int fold_c(int c, int fold) { return (fold && c >= 'A' && c <= 'Z') ? c + 32 : c; }
 
+/* The character properties as the table of vbi_search_new() names them, stated for the characters the class texts are
+ * made of: ASCII (C locale) and, for 16, the Teletext G1 / G3 graphics ranges the ure.c comment gives.  Written out, not
+ * taken from <ctype.h> or ure.c. */
+static int cls_has(int prop, int c)
+{
+        int up = c >= 'A' && c <= 'Z', lo = c >= 'a' && c <= 'z', dg = c >= '0' && c <= '9', graph = c > 0x20 && c < 0x7F;
+        switch (prop) {
+        case 1:  return up || lo || dg;
+        case 2:  return up || lo;
+        case 3:  return c < 0x20 || c == 0x7F;
+        case 4:  return dg;
+        case 5:  return graph;
+        case 6:  return lo;
+        case 7:  return c >= 0x20 && c < 0x7F;
+        case 8:  return graph && !(up || lo || dg);
+        case 9:  return c == 0x20 || (c >= 0x09 && c <= 0x0D);
+        case 10: return up;
+        case 11: return dg || (c >= 'A' && c <= 'F') || (c >= 'a' && c <= 'f');
+        case 16: return (c >= 0xEE00 && c <= 0xEE7F) || (c >= 0xEF20 && c <= 0xEF7F);
+        case 17: return c >= 0xF000 && c <= 0xF7FF;
+        default: return 0;      /* 12..15 are not used by any pattern */
+        }
+}
+/* "N1,N2,...": length of the list at p */
+static int plist_len(const char *p, int pn) { int i = 0; while (i < pn && ((p[i] >= '0' && p[i] <= '9') || p[i] == ',')) i++; return i; }
+static int plist_has(const char *p, int n, int c)
+{
+        int v = 0, hit = 0;
+        for (int i = 0; i <= n; i++) {
+                if (i < n && p[i] != ',') { v = v * 10 + (p[i] - '0'); continue; }
+                if (v) hit |= cls_has(v, c);
+                v = 0;
+        }
+        return hit;
+}
+static const struct { const char *name; int prop; } posix_cls[] = {
+        { "alnum", 1 }, { "alpha", 2 }, { "cntrl", 3 }, { "digit", 4 }, { "graph", 5 }, { "lower", 6 },
+        { "print", 7 }, { "punct", 8 }, { "space", 9 }, { "upper", 10 }, { "xdigit", 11 }, { "gfx", 16 }, { "drcs", 17 },
+};
+static int is_plist(const char *p, int pn) { return pn >= 3 && p[0] == '\\' && (p[1] == 'p' || p[1] == 'P') && p[2] >= '0' && p[2] <= '9'; }
+
 static int atom_len(const char *p, int pn)
 {
+        if (is_plist(p, pn)) return 2 + plist_len(p + 2, pn - 2);
         if (p[0] == '\\' && pn >= 2) return 2;
         if (p[0] == '[') { int i = 1; while (i < pn && p[i] != ']') i++; return i + 1; }
         return 1;
 }
-static int atom_match(const char *p, int alen, int c, int fold)
+static int atom_match(const char *p, int alen, int c0, int fold)
 {
-        c = fold_c(c, fold);
+        int c = fold_c(c0, fold);       /* literals and ranges compare case folded, properties are those of the character on the page */
+        if (is_plist(p, alen)) return plist_has(p + 2, alen - 2, c0) ? p[1] == 'p' : p[1] == 'P';
         if (p[0] == '\\') return c == fold_c((unsigned char) p[1], fold);
         if (p[0] == '.') return 1;
-        if (p[0] == '[') { for (int i = 1; i < alen - 1; i++) if (c == fold_c((unsigned char) p[i], fold)) return 1; return 0; }
+        if (p[0] == '[') {
+                int i = 1, end = alen - 1, neg = 0, hit = 0;
+                if (i < end && p[i] == '^') { neg = 1; i++; }
+                while (i < end) {
+                        if (p[i] == ':') {
+                                unsigned k;
+                                for (k = 0; k < sizeof posix_cls / sizeof posix_cls[0]; k++) {
+                                        int l = (int) strlen(posix_cls[k].name);
+                                        if (i + 1 + l < end && !strncmp(p + i + 1, posix_cls[k].name, l) && p[i + 1 + l] == ':') {
+                                                hit |= cls_has(posix_cls[k].prop, c0); i += l + 2; break;
+                                        }
+                                }
+                                if (k < sizeof posix_cls / sizeof posix_cls[0]) continue;
+                        }
+                        if (is_plist(p + i, end - i) && p[i + 1] == 'p') { int l = plist_len(p + i + 2, end - i - 2); hit |= plist_has(p + i + 2, l, c0); i += 2 + l; continue; }
+                        if (i + 2 < end && p[i + 1] == '-') {
+                                hit |= c >= fold_c((unsigned char) p[i], fold) && c <= fold_c((unsigned char) p[i + 2], fold); i += 3; continue;
+                        }
+                        hit |= c == fold_c((unsigned char) p[i], fold); i++;
+                }
+                return neg ? !hit : hit;
+        }
         return c == fold_c((unsigned char) p[0], fold);
 }
 /* does p[0..pn) match t[0..k) for some k (exactly k == tn when full)? */
@@ -197,11 +407,15 @@ static int m_seq(const char *p, int pn, const uint16_t *t, int tn, int full, int
 {
         if (pn == 0) return full ? tn == 0 : 1;
         int al = atom_len(p, pn);
-        if (al < pn && p[al] == '*') {
+        if (al < pn && (p[al] == '*' || p[al] == '+')) {
                 for (int k = 0;; k++) {
-                        if (m_seq(p + al + 1, pn - al - 1, t + k, tn - k, full, fold)) return 1;
+                        if ((k > 0 || p[al] == '*') && m_seq(p + al + 1, pn - al - 1, t + k, tn - k, full, fold)) return 1;
                         if (!(k < tn && atom_match(p, al, t[k], fold))) return 0;
                 }
+        }
+        if (al < pn && p[al] == '?') {
+                if (m_seq(p + al + 1, pn - al - 1, t, tn, full, fold)) return 1;
+                return tn > 0 && atom_match(p, al, t[0], fold) && m_seq(p + al + 1, pn - al - 1, t + 1, tn - 1, full, fold);
         }
         if (tn > 0 && atom_match(p, al, t[0], fold)) return m_seq(p + al, pn - al, t + 1, tn - 1, full, fold);
         return 0;
@@ -430,6 +644,12 @@ static int page_has_hidden(const struct run *r, int pg)
         return 0;
 }
 
+static int pat_has_any_or_negated(const char *p) { return strstr(p, "\\P") || strstr(p, "[^") || strchr(p, '.'); }
+static int rows_have_gfx(const struct rows *R)
+{
+        for (int r = 1; r <= 23; r++) for (int i = 0; i < R->n[r]; i++) if (cls_has(16, R->ch[r][i])) return 1;
+        return 0;
+}
 /* page y should have been returned now but was not: name the class of the failure */
 static void report_missing(struct run *r, int y, const char *got)
 {
@@ -442,8 +662,11 @@ static void report_missing(struct run *r, int y, const char *got)
                 /* the walk offered the page, the matcher said no */
                 if (yt == T_PREFIX || yt == T_PREFIX2)
                         snprintf(key, sizeof key, "%s: occurrence that begins inside a failed partial match (ZZAP, ZAZAP) is not reported", dname(r->dir));
+                else if (r->pt->fam && pat_has_any_or_negated(r->pt->src) && rows_have_gfx(oracle_rows(r->sl[idx_of(r, y)], yt)))
+                        /* names the input class of an established failure: every occurrence on this page needs '.', \P or [^ ] to take a mosaic */
+                        snprintf(key, sizeof key, "regex: '.' or a negated class does not match a Teletext graphics character");
                 else
-                        snprintf(key, sizeof key, "%s: visited page with an occurrence is not reported [%s]", dname(r->dir), r->pt->name);
+                        snprintf(key, sizeof key, "%s: visited page with an occurrence is not reported [%s]", dname(r->dir), pkey(r->pt));
         } else if (page_has_hidden(r, pg))
                 snprintf(key, sizeof key, "%s: page with a cached subpage below its statistics' subno_min is not fully visited", dname(r->dir));
         else if (r->dir < 0 && !r->origin_switch && r->P_any == pg)
@@ -477,7 +700,7 @@ static void check_highlight(struct run *r, const vbi_page *pg)
         if (bad) { snprintf(key, sizeof key, "%s: highlighted cells are not one run in one row", dname(r->dir)); report(r, key, "highlight"); return; }
         if (!m_at(r->pt, R.ch[hr] + h0, h1 - h0 + 1, 1)) {
                 char w[120]; snprintf(w, sizeof w, "highlight row %d characters %d..%d of %x.%x", hr, h0, h1, pg->pgno, pg->subno);
-                snprintf(key, sizeof key, "%s: highlighted text is not an occurrence of the pattern [%s]", dname(r->dir), r->pt->name);
+                snprintf(key, sizeof key, "%s: highlighted text is not an occurrence of the pattern [%s]", dname(r->dir), pkey(r->pt));
                 report(r, key, w);
         }
         r->hl_row = hr; r->hl_c0 = R.col[hr][h0];
@@ -487,7 +710,7 @@ static void check_highlight(struct run *r, const vbi_page *pg)
 
 static void run_begin(struct run *r, const struct cfg *c)
 {
-        uint16_t pat[32]; int i;
+        uint16_t pat[64]; int i;
         static const int ord[2][NSLOT] = { { 0, 1, 2, 3, 4, 5, 6 }, { 0, 2, 1, 3, 4, 5, 6 } };
         memset(r, 0, sizeof *r);
         r->c = c; r->pt = &pats[c->pat];
@@ -503,12 +726,13 @@ static void run_begin(struct run *r, const struct cfg *c)
         }
         for (i = 0; r->pt->src[i]; i++) pat[i] = (unsigned char) r->pt->src[i];
         pat[i] = 0;
+        if (r->pt->fam) { char k[120]; snprintf(k, sizeof k, "vbi_search_new crashes [%s]", pkey(r->pt)); mc_case(k, "%s", run_desc(r)); }
         r->s = vbi_search_new(r->v, c->spg, c->ssub, pat, r->pt->casefold, r->pt->regexp, progress_cb);
         r->O = KEY(c->spg, c->ssub == VBI_ANY_SUBNO ? 0 : c->ssub);
         r->P_any = c->ssub == VBI_ANY_SUBNO ? c->spg : -1;
         r->cur = -1; r->lead = -1; r->last = -99;
         if (!r->s) {
-                char key[120]; snprintf(key, sizeof key, "vbi_search_new refuses the pattern [%s]", r->pt->name);
+                char key[120]; snprintf(key, sizeof key, "vbi_search_new refuses the pattern [%s]", pkey(r->pt));
                 report(r, key, "vbi_search_new returned NULL");
         }
 }
@@ -583,7 +807,7 @@ static int run_step(struct run *r, int letter)
                 if (r->stop) return st;
                 if (r->dead) { r->cur = x; mc_outcome("%s SUCCESS after a cache update", dname(d)); return st; }
                 if (!r->match[xi]) {
-                        snprintf(key, sizeof key, "%s: returned page has no occurrence in rows 1-23 [%s, text '%s']", dname(d), r->pt->name, text_name(r->var[r->sl[xi]]));
+                        snprintf(key, sizeof key, "%s: returned page has no occurrence in rows 1-23 [%s, text '%s']", dname(d), pkey(r->pt), r->pt->fam ? "a class text" : text_name(r->var[r->sl[xi]]));
                         report(r, key, what); return st;
                 }
                 if (x == r->cur) {
@@ -791,6 +1015,25 @@ static void pattern_case(uint64_t idx, void *arg)
         all_starts(&c, a);
 }
 
+/* seed C17 round 5: every pattern of the property class family against every class text.  The NCT texts rotate through the
+ * slots 100.1 .. 8FE.0: slot i holds text (rot + 5 i) mod NCT.  With all NCT rotations (thorough tier) every (pattern, text)
+ * pair meets in every slot, with the first NCT / 2 (quick tier) in at least 3 slots; every page has matching and non
+ * matching neighbours; each population is searched in straight passes like the phase "patterns". */
+#define NCT (NCLS + 2)
+#define NROT(T) ((T) ? NCT : NCT / 2)
+static int cls_phase_text(int i) { return i < NCLS ? T_CLS0 + i : i == NCLS ? T_BLANK : T_ONCE; }
+static void class_case(uint64_t idx, void *arg)
+{
+        const struct phase_arg *a = arg; struct cfg c; memset(&c, 0, sizeof c);
+        int nrot = NROT(mc_tier == MC_THOROUGH), rot = idx % nrot;
+        c.pat = npats_zap + idx / nrot;
+        /* no page text has a DRCS character: nothing distinguishes the populations for [:drcs:], one of them will do */
+        if (rot > 0 && strstr(pats[c.pat].src, ":drcs:")) return;
+        for (int i = 1; i < NSLOT; i++) c.var[i] = cls_phase_text((rot + 5 * i) % NCT);
+        c.var[0] = T_ABSENT;
+        all_starts(&c, a);
+}
+
 /* one cache update between two calls */
 /* update from inside the progress callback, then the pass to its end, then one complete pass judged exactly */
 static void drive_cb_update(const struct cfg *c, int d, int u)
@@ -909,20 +1152,29 @@ int main(int argc, char **argv)
 
         mc_meta("level", "model_checking");
         mc_meta("technique", "bounded-exhaustive product of cache populations x start positions x call histories on the real search/cache/regex code, "
-                "every answer predicted by a reference pass model with an independent matcher; E2 explicit-state search over all next(+1)/next(-1)/update sequences");
+                "every answer predicted by a reference pass model with an independent matcher (literals, . * + ? | sets, ranges, character property classes \\pN \\PN [:name:] [^:name:]); "
+                "E2 explicit-state search over all next(+1)/next(-1)/update sequences");
         mc_meta("rule", "a scenario = (text of each of 7 page slots, store order, pattern, start page/subpage, history of calls); it is run on a fresh decoder "
                 "and is non-trivial when vbi_search_next was reached; flat phases enumerate straight passes (+ restart), every single direction switch point and one cache update, "
+                "every pattern of an enumerated family of property class expressions against every class text in every slot, "
                 "the BFS phase all letter sequences with de-duplication on (search context, model state, cache content)");
         mc_meta("assume", "enlarged characters count once (upper left cell); lower halves are not text");
         mc_meta("assume", "backward pass: the start page may be returned first or last (property text vs. API documentation), all other positions are fixed");
         mc_meta("assume", "after a cache update only termination, a legal status and a real highlighted occurrence are demanded");
         mc_meta("assume", "start pages within 0x100..0x8FF; caches holding only undisplayable pages are not explored");
+        mc_meta("assume", "character properties are those of the C locale on ASCII plus the Teletext graphics ranges; class texts never touch a row boundary (whether the row "
+                "separator belongs to a negated class is not judged); properties 12-15, upper/lower under case folding and overlapping classes under * + ? | are not explored");
         mc_meta("assume", "100.0 is stored before 100.1/100.2 (storing P.0 replaces another cached subpage of P); 100.1/100.2 in both orders");
         mc_meta("bound", "slots {100.0,100.1,100.2,150.0,1AB.0,899.0,8FE.0} x {absent,'ZIP','ZAP'}: all populations of <= 2 pages and all of %s, x 8 start pages x {0,ANY,2} x 2 directions, "
                 "straight pass + restart; the same on slots {150.0,1AB.1,1AB.A,1AB.C,2BD.F,899.0,8FE.B} (hexadecimal subpage numbers); a direction switch after every call on populations of <= 2 pages and on %s; %d text variants one at a time x 7 slots x 3 backgrounds; "
-                "%d patterns (literal/regex/casefold/28 escaped characters) x %d text rotations; one cache update after 0..2 calls on %s, and one from inside the progress callback while the page is being visited, each followed by complete passes; "
+                "%d patterns (literal/regex/casefold/28 escaped characters) x %d text rotations; "
+                "%d regular expressions of character property classes (ordered pairs over {alpha,digit,punct,upper,lower} as \\pN and as [:name:] incl. one class twice, mixed notations, triples, "
+                "negated classes \\PN / [^:name:] before, after, between positive ones and two in a row, union lists, alnum/xdigit/graph/print/space, * + ? | over disjoint classes, casefold, "
+                "Teletext graphics, the documented names :gfx: :drcs:, a class next to a literal or a range) x %d rotations of %d class texts (12 permutations of 'Bk7-', '7B', '42', 'AB', ... , mosaics) "
+                "over 6 slots x %s; one cache update after 0..2 calls on %s, and one from inside the progress callback while the page is being visited, each followed by complete passes; "
                 "BFS: %d slots x 4 texts x %d starts, all sequences of %d operations {next(+1), next(-1), %d updates (at most one)}",
-                T ? "the 7 slots" : "the 6 slots without 1AB.0", T ? "all populations" : "{100.0,100.1,150.0,8FE.0}", NTEXT_ZAP - 1, npats, NPT,
+                T ? "the 7 slots" : "the 6 slots without 1AB.0", T ? "all populations" : "{100.0,100.1,150.0,8FE.0}", NTEXT_ZAP - 1, npats_zap, NPT,
+                npats - npats_zap, NROT(T), NCT, T ? "4 start pages x {0,ANY,2} x 2 directions" : "start 100.0 / 300.0 x 2 directions",
                 T ? "{100.1,100.2,150.0,899.0,8FE.0}" : "{100.1,150.0,899.0,8FE.0}", B.nslot, B.npg * B.nsub, bfs_ops, B.nupd);
 
         /* small populations first: the recorded witness of each violation key is then a small one */
@@ -954,7 +1206,9 @@ int main(int argc, char **argv)
         struct phase_arg txt = { 0x7F, 0, 7, 1, T, ALL_PG, T ? 3 : 1 };
         mc_pool("text variants, among other pages", (uint64_t) 2 * NSLOT * (NTEXT_ZAP - 1), text_case, &txt, 120);
         struct phase_arg pt = { 0x7F, 0, 7, 1, 0, T ? ALL_PG : S(0) | S(4), T ? 3 : 1 };
-        mc_pool("patterns", (uint64_t) npats * NPT, pattern_case, &pt, 120);
+        mc_pool("patterns", (uint64_t) npats_zap * NPT, pattern_case, &pt, 120);
+        struct phase_arg pc = { 0x7F, 0, 7, 1, 0, T ? S(0) | S(2) | S(4) | S(7) : S(0) | S(4), T ? 3 : 1 };
+        mc_pool("property classes", (uint64_t) (npats - npats_zap) * NROT(T), class_case, &pc, 120);
         struct phase_arg up = { T ? (m6 & ~S(0)) : (S(1) | S(3) | S(5) | S(6)), 0, 7, 0, 0, T ? ALL_PG : S(0) | S(2) | S(4) | S(7), T ? 3 : 1 };
         mc_pool("one cache update", npop(up.mask), update_case, &up, 120);
         /* two subpages of one page among the slots: the page statistics (subpage range) are at stake when one of them is replaced while referenced */
